@@ -2,10 +2,14 @@ INIT MCInit
 NEXT MCNext
 CONSTANT Sets = {{1}, {10}, {12, 16}}
 CONSTANT MutMax = 1
+CONSTANT Sizes = {1, 2, 12, 13, 20, 40, 100}
+CONSTANT SizesMany = {2, 13, 40}
+CONSTANT ManyMin = 2
 INVARIANT TreeConforms
 INVARIANT RoundTripRFC
 INVARIANT RoundTripJSON
 INVARIANT RoundTripXML
+INVARIANT RiffleXML
 INVARIANT MutantsRFC
 INVARIANT MutantsJSON
 INVARIANT MutantsXML
